@@ -216,6 +216,7 @@ class Exec:
             if op == '-': return -D.lift(rval(a)) if not isinstance(rval(a), (Vec,)) else -rval(a)
             if op in ('++', '--'):
                 v = rval(a); nv = v + (1 if op == '++' else -1); a.set(nv); return nv
+            if op == '+': return rval(a)
             if op == '!': return not s.truth(a)
             raise Unsupported('unary ' + op)
         if k == 'BinaryOperator':
